@@ -53,3 +53,49 @@ Print Assumptions comment_after_operator_refuted.
 Print Assumptions swallowers_pinned.
 Print Assumptions pin_tzcast.
 Print Assumptions single_quoted_after_tzcast_refuted.
+
+(* ---- from ANY text: a token whose value contains a single quote ----------------------------------------- *)
+From SqlModel Require Import LexFacts SwallowFacts.
+From SqlModel.Gen Require Import CaseTabs KwTabs.
+From SqlModel.Inst Require C01.
+
+Definition quote_actions : list action := map snd (filter (fun ra => consumes 39%N (fst ra)) sql_regex).
+Definition action_eqb (a b : action) : bool :=
+  match a, b with
+  | Emit x, Emit y => ttype_eqb x y
+  | AsKeyword, AsKeyword => true
+  | _, _ => false
+  end.
+
+(* the rules that can consume a single quote all emit a fixed token type: the comment types, Name (backtick / acute /
+   [bracket] names), Literal (dollar quoted), String.Single, String.Symbol and Keyword.TZCast *)
+Lemma quote_actions_pinned :
+  quote_actions
+  = [Emit [Comment; Single; Hint]; Emit [Comment; Multiline; Hint]; Emit [Comment; Single]; Emit [Comment; Multiline];
+     Emit [Name]; Emit [Name]; Emit [Literal]; Emit [Literal; String; Single]; Emit [Literal; String; Symbol];
+     Emit [Literal; String; Symbol]; Emit [Name]; Emit [Keyword; TZCast]].
+Proof. vm_compute. reflexivity. Qed.
+
+Definition quote_types : list ttype :=
+  [[Error]; [Comment; Single; Hint]; [Comment; Multiline; Hint]; [Comment; Single]; [Comment; Multiline]; [Name];
+   [Literal]; [Literal; String; Single]; [Literal; String; Symbol]; [Keyword; TZCast]].
+
+(* EVERY text: a token that contains a single quote is an Error character, a comment, a quoted name, a dollar-quoted
+   or quoted literal, or the TZCast keyword -- never a keyword of another kind, an operator, a number, punctuation,
+   whitespace or an unquoted name (the generic word rule is AsKeyword and cannot consume a quote) *)
+Theorem quote_token_types : forall t toks tk,
+  cur_lex t = Ok toks -> In tk toks -> In 39%N (snd tk) -> existsb (ttype_eqb (fst tk)) quote_types = true.
+Proof.
+  intros t toks tk E Hin Hq.
+  destruct (lex_total_lossless lower upper sql_regex kws C01.cur_rules_wide t) as (toks' & E' & _ & _ & S).
+  unfold cur_lex in E. rewrite E in E'. injection E' as <-.
+  pose proof (LexSpec_consumers lower 39%N upper sql_regex kws None t toks S) as HF.
+  rewrite Forall_forall in HF. destruct (HF tk Hin Hq) as [-> | (r & a & Hr & Hc & Etk)]; [reflexivity|].
+  assert (Ha : In a quote_actions).
+  { unfold quote_actions. apply in_map_iff. exists (r, a). split; [reflexivity|].
+    apply filter_In. split; [exact Hr | exact Hc]. }
+  rewrite quote_actions_pinned in Ha. rewrite Etk.
+  cbn [In] in Ha.
+  repeat (destruct Ha as [<- | Ha]; [reflexivity|]). contradiction.
+Qed.
+Print Assumptions quote_token_types.
